@@ -103,7 +103,8 @@ theorem c09_map_encoding_order_independent (c : EncCfg) (hs : c.sortKeys = true)
     (h : encode c (fuel + 1) scope (.map t) (.map es₁) = .ok d) :
     encode c (fuel + 1) scope (.map t) (.map es₂) = .ok d := by
   simp only [encode, bind, Except.bind] at h ⊢
-  cases h1 : encodeKeyed (fun k => c.excl.matchesB (scope ++ [k])) (fun k v => encode c fuel (scope ++ [k]) t v) es₁ with
+  cases h1 : encodeKeyed (fun k => c.excl.matchesB (scope ++ [k])) (fun k v => if c.excl.matchesB (scope ++ [k]) then encodeNoop c.env t v
+      else encode c fuel (scope ++ [k]) t v) es₁ with
   | error e => simp [h1] at h
   | ok r₁ =>
     obtain ⟨r₂, h2, hperm⟩ := encodeKeyed_perm _ _ es₁ es₂ hp r₁ h1
@@ -121,7 +122,8 @@ theorem c09_map_keys_ascending (c : EncCfg) (hs : c.sortKeys = true) (fuel : Nat
     (scope : List Bytes) (t : Ty) (es : List (Bytes × Value)) (hn : KeysNodup es) (kvs : List (Bytes × Doc))
     (h : encode c (fuel + 1) scope (.map t) (.map es) = .ok (.obj kvs)) : SortedKeys kvs := by
   simp only [encode, bind, Except.bind] at h
-  cases h1 : encodeKeyed (fun k => c.excl.matchesB (scope ++ [k])) (fun k v => encode c fuel (scope ++ [k]) t v) es with
+  cases h1 : encodeKeyed (fun k => c.excl.matchesB (scope ++ [k])) (fun k v => if c.excl.matchesB (scope ++ [k]) then encodeNoop c.env t v
+      else encode c fuel (scope ++ [k]) t v) es with
   | error e => simp [h1] at h
   | ok r =>
     simp only [h1, pure, Except.pure, Except.ok.injEq, EncCfg.finish, hs, ↓reduceIte, Doc.obj.injEq] at h
